@@ -30,6 +30,8 @@ SHAPES = ['join', 'in_subquery', 'not_in_subquery', 'scalar_subquery', 'target_s
 # chains of two set operations over three integrations' tables (combinations on which left-to-right grouping and the standard's
 # INTERSECT-first grouping agree)
 SETCHAINS = [(o1, o2) for o1 in ('UNION', 'UNION ALL', 'INTERSECT', 'EXCEPT') for o2 in ('UNION', 'UNION ALL', 'EXCEPT')] + [('INTERSECT', 'INTERSECT')]
+# a select over a derived table whose outer clauses hold a sub-query on another integration
+SHAPES += ['derived_where_in_subquery', 'derived_target_subquery', 'derived_where_scalar', 'derived_join_where_in_subquery']
 SHAPES += ['setchain_' + (o1 + '__' + o2).lower().replace(' ', '_') for o1, o2 in SETCHAINS]
 JOINS = ['JOIN', 'INNER JOIN', 'LEFT JOIN', 'RIGHT JOIN', 'FULL JOIN', 'LEFT OUTER JOIN', 'FULL OUTER JOIN', 'CROSS JOIN', 'implicit']
 ONS = [('equi', 't1.id = t2.id'), ('equi_rconst', 't1.id = t2.id AND t2.b = 1'), ('equi_lconst', 't1.id = t2.id AND t1.a = 1'),
@@ -230,6 +232,29 @@ def build(a):
                 spec = []
                 return dict(sql=sql, full_sql=full, spec=[], limit=None, offset=None, catalog=cat, label=label(a),
                             ref_parts=(f'SELECT t1.id, t1.a FROM {t1}', shape, 'SELECT t2.id, t2.b FROM int2.t2'))
+        elif shape.startswith('derived_'):
+            if a['targets'] or group or wl not in ('none', 'left', 'gt'):
+                return None
+            inner = f'SELECT t1.id, t1.a, t1.x FROM {t1}'
+            w2 = where.replace('t1.', 's.') if where else ''
+            names = ['id', 'a']
+            tg = 's.id, s.a'
+            frm = f'({inner}) AS s'
+            if shape == 'derived_where_in_subquery':
+                cond = 's.id IN (SELECT t2.id FROM int2.t2)'
+            elif shape == 'derived_where_scalar':
+                cond = 's.a = (SELECT min(t2.b) FROM int2.t2)'
+            elif shape == 'derived_target_subquery':
+                tg, names, cond = 's.id, s.a, (SELECT max(t2.b) FROM int2.t2) AS m', ['id', 'a', 'm'], ''
+            else:
+                frm = f'({inner}) AS s JOIN int1.t3 ON s.id = t3.id'
+                cond = 's.id IN (SELECT t2.id FROM int2.t2)'
+            conds = [c for c in (cond, w2) if c]
+            body = f'SELECT {tg} FROM {frm}' + (' WHERE ' + ' AND '.join(conds) if conds else '')
+            if any(p > 1 for p, d in ospec):
+                return None
+            full = body
+            sql = body + tail(['s.id', 's.a', 'm']) + lim_sql()
         elif shape.startswith('setchain_'):
             if a['targets'] or group or where or ospec or lim is not None:
                 return None
